@@ -2,6 +2,7 @@ import WebpVerif.Model.Container
 import WebpVerif.Lemmas.OpenFile
 import WebpVerif.Lemmas.ScanAnim
 import WebpVerif.Lemmas.Riff
+import WebpVerif.Lemmas.OpenSimple
 
 /-!
 # C08 — header and metadata accessors report exactly what the container holds
@@ -169,5 +170,30 @@ theorem open_animated (flags r0 r1 r2 cw ch : Nat) (items : List ScanProof.Item)
       info.loopCount = bs.getD 4 0 + 256 * bs.getD 5 0 ∧
       info.background = [bs.getD 2 0, bs.getD 1 0, bs.getD 0 0, bs.getD 3 0] :=
   ScanProof.open_animated flags r0 r1 r2 cw ch items hfl hr hcw hch hprod hall hsize hanim hframes hanimc hanim6 hicc hexif hxmp
+
+/-- **Whole file, simple lossless layout**: RIFF header + one `VP8L` chunk.  For EVERY size
+    1..16384 per side and both alpha bits - whatever the declared RIFF and chunk sizes and
+    whatever follows the five header bytes - `WebPDecoder::new` succeeds and reports exactly that
+    width, height and alpha bit, not lossy, not animated, and the payload range of the chunk. -/
+theorem open_simple_lossless (riffSize plen w h : Nat) (alpha : Bool) (body : List Nat)
+    (hrs : riffSize < 2 ^ 32) (hpl : plen < 2 ^ 32) (hw : 1 ≤ w ∧ w ≤ 16384) (hh : 1 ≤ h ∧ h ≤ 16384) :
+    openFile (ScanProof.simpleLossless riffSize plen w h alpha body) =
+      .ok { emptyInfo with width := w, height := h, hasAlpha := alpha, chunks := [(VP8L, (20, 20 + plen))] } :=
+  ScanProof.open_simple_lossless riffSize plen w h alpha body hrs hpl hw hh
+
+/-- **Whole file, simple lossy layout**: RIFF header + one `VP8 ` chunk holding a key frame (first
+    tag byte even), the start code and the two 16-bit size fields.  For EVERY 14-bit size 1..16383
+    and every value of the 2-bit scale fields, the accessors report exactly the 14-bit sizes,
+    lossy, no alpha, not animated. -/
+theorem open_simple_lossy (riffSize plen t0 t1 t2 w sx h sy : Nat) (body : List Nat)
+    (hrs : riffSize < 2 ^ 32) (hpl : plen < 2 ^ 32) (ht : t0 < 256 ∧ t1 < 256 ∧ t2 < 256) (hkey : t0 % 2 = 0)
+    (hw : 1 ≤ w ∧ w < 2 ^ 14) (hh : 1 ≤ h ∧ h < 2 ^ 14) (hsx : sx < 4) (hsy : sy < 4) :
+    openFile (ScanProof.simpleLossy riffSize plen t0 t1 t2 w sx h sy body) =
+      .ok { emptyInfo with width := w, height := h, isLossy := true, chunks := [(VP8, (20, 20 + plen))] } :=
+  ScanProof.open_simple_lossy riffSize plen t0 t1 t2 w sx h sy body hrs hpl ht hkey hw hh hsx hsy
+
+-- non-vacuity: a 16384 x 1 lossless header with alpha
+example : (openFile (ScanProof.simpleLossless 18 6 16384 1 true [0])).toOption.map
+    (fun i => (i.width, i.height, i.hasAlpha, i.isLossy)) = some (16384, 1, true, false) := by decide +kernel
 
 end C08
